@@ -493,6 +493,87 @@ def inventory(prog, chk, rid, scope=None, pid="C01", crates=SHIPPED):
     return counts
 
 
+# reviewed recursion heads: any SCC of the call graph must contain one of these (or consist of peg rule functions)
+RECURSION_HEADS = {
+    "<brush_parser::ast::Program as brush_core::interp::Execute>::execute":
+        "the interpreter: structural recursion over the parsed tree (bounded by the nesting of the input), plus user-level recursion "
+        "through functions / eval / source, which is by design as in bash and limited by the opt-in max_function_call_depth (R1.3)",
+    "brush_core::arithmetic::eval_expr_impl": "structural on the expression tree; re-evaluation of variable contents is depth-guarded (R1.3 / C07 R7.5)",
+    "brush_core::braceexpansion::generate_and_combine_brace_expansions": "structural on the brace-expression tree",
+    "brush_core::variables::ShellVariable::assign_at_index": "assign_at_index calls assign once to turn an unset variable into an empty array, which cannot call back with an unset value",
+    "brush_parser::tokenizer::Tokenizer::consume_nested_construct": "structural on the nesting of $( ) / ${ } / `…` in the input",
+    "brush_interactive::highlighting::Highlighter::highlight_program": "structural on nested command substitutions of the line",
+    "brush_core::variables::ShellValue::try_get_cow_str": "Dynamic values resolve through their getter to a concrete (non-Dynamic) value: one extra level",
+    "brush_core::variables::ShellValue::get_at": "Dynamic values resolve through their getter to a concrete value: one extra level",
+    "brush_core::variables::ShellValue::format": "Dynamic values resolve through their getter to a concrete value: one extra level",
+    "brush_core::variables::ShellValue::to_assignable_str": "Dynamic values resolve through their getter to a concrete value: one extra level",
+    "brush_core::variables::ShellValue::element_keys": "Dynamic values resolve through their getter to a concrete value: one extra level",
+    "brush_core::variables::ShellValue::element_values": "Dynamic values resolve through their getter to a concrete value: one extra level",
+    "<brush_core::interfaces::keybindings::KeyAction as core::fmt::Display>::fmt": "structural on the key-action tree",
+    "brush_interactive::reedline::edit_mode::UpdatableBindings::flatten_action_into": "structural on the key-action tree",
+    "brush_interactive::reedline::edit_mode::translate_action_to_reedline_event": "structural on the key-action tree",
+    "brush_interactive::reedline::edit_mode::translate_reedline_event_to_action": "structural on the reedline event tree",
+    "brush_interactive::reedline::edit_mode::UpdatableBindings::update": "each nested update() is entered only after an existing key binding was found and removed: bounded by the number of bindings (interactive `bind` only)",
+}
+
+
+def recursion_rule(prog, chk, rid):
+    """R1.3(iii): every cycle of the whole-program call graph contains a reviewed recursion head"""
+    import sys
+    cg = callgraph(prog)
+    edges = cg.edges
+    index = {}
+    low = {}
+    onst = set()
+    st = []
+    sccs = []
+    counter = [0]
+    sys.setrecursionlimit(max(sys.getrecursionlimit(), 200000))
+
+    def strong(v):
+        index[v] = low[v] = counter[0]
+        counter[0] += 1
+        st.append(v)
+        onst.add(v)
+        for w in edges.get(v, ()):
+            if w not in edges:
+                continue
+            if w not in index:
+                strong(w)
+                low[v] = min(low[v], low[w])
+            elif w in onst:
+                low[v] = min(low[v], index[w])
+        if low[v] == index[v]:
+            comp = []
+            while True:
+                w = st.pop()
+                onst.discard(w)
+                comp.append(w)
+                if w == v:
+                    break
+            if len(comp) > 1 or v in edges.get(v, ()):
+                sccs.append(comp)
+    for v in list(edges):
+        if v not in index and prog.body(v) is not None:
+            strong(v)
+    n = 0
+    for comp in sccs:
+        owners = {owner(x) for x in comp}
+        n += 1
+        if all("::__parse_" in x for x in owners):
+            chk.ok(rid, "scc:peg:%s" % sorted(owners)[0].rsplit("::", 1)[-1], "%d peg rule functions: recursion is structural on the input (packrat descent)" % len(owners), nontrivial=False)
+            continue
+        if all("::tests::" in x for x in owners):
+            continue
+        heads = [h for h in RECURSION_HEADS if h in owners]
+        if heads:
+            chk.ok(rid, "scc:%s" % heads[0], "%d functions; %s" % (len(owners), RECURSION_HEADS[heads[0]]), function=heads[0])
+        else:
+            rep = sorted(owners)[0]
+            chk.fail(rid, rep, "unreviewed-recursion", "call-graph cycle without a reviewed recursion head: %s" % sorted(owners)[:6])
+    chk.floor(rid, "call-graph cycles", n, 20)
+
+
 def run(prog, chk):
     chk.explanation = (
         "INV: every panic-capable construct of shipped code (MIR overflow/division/bounds asserts, unwrap/expect/panic calls, "
@@ -531,6 +612,8 @@ def run(prog, chk):
             chk.ok("R1.3", "function-depth-guard", "when options.max_function_call_depth is set, push_function is unreachable from the depth >= max edge (the limit is opt-in, as FUNCNEST in bash)", function=ef.name)
         else:
             chk.fail("R1.3", ef.name, "function-depth-guard", "push_function is reachable without the max_function_call_depth test: unbounded recursion overflows the stack")
+        if chk.tier == "thorough":
+            recursion_rule(prog, chk, "R1.3c")
         callers = {owner(b.name) for b, _, _ in prog.callers_of("brush_core::callstack::CallStack::push_function", crates=SHIPPED)}
         if callers == {"brush_core::shell::Shell::enter_function"}:
             chk.ok("R1.3", "push_function-single-caller", "only enter_function pushes function frames", function=ef.name)
